@@ -101,6 +101,13 @@ def run_items(mod, fn, items, jobs=None, chunksize=1):
 
 
 _EX = None
+_RECYCLE = [None]
+
+
+def set_recycle(n):
+    """workers are replaced after n work items (TensorFlow keeps every traced graph alive: long runs of model-building
+    items otherwise grow to several GB per worker); must be called before the first run_items of a check run"""
+    _RECYCLE[0] = int(os.environ.get("VERIF_TASKS_PER_WORKER", n)) if n else None
 
 
 def _executor(jobs):
@@ -110,6 +117,7 @@ def _executor(jobs):
         import atexit
 
         ctx = mp.get_context("spawn")
-        _EX = ProcessPoolExecutor(max_workers=jobs, mp_context=ctx, initializer=_init, initargs=(True,))
+        kw = {"max_tasks_per_child": _RECYCLE[0]} if _RECYCLE[0] else {}
+        _EX = ProcessPoolExecutor(max_workers=jobs, mp_context=ctx, initializer=_init, initargs=(True,), **kw)
         atexit.register(lambda: _EX.shutdown(wait=False, cancel_futures=True))
     return _EX
